@@ -216,6 +216,15 @@ def h_views(cx):
     cx.expect(list(xs) == [0, 2], 'plottable:x')
     cx.prove_eq(list(ys), [v, v2], 'plottable:y = values')
     cx.prove_eq(list(es), [d, d2], 'plottable:yerr = dvalues')
+    # entries with an integer-typed central value (covariance-defined reference numbers) in front of ordinary ones
+    ci = pe.cov_Obs([1, 0.52, 0.27], np.diag([0.0001, 0.0004, 0.0009]), 'ref')
+    for q in ci:
+        q.gamma_method()
+    c2 = pe.Corr([ci[0], None, ci[1], ci[2]])
+    xs, ys, es = c2.plottable()
+    cx.expect(list(xs) == [0, 2, 3], 'plottable(integer first):x')
+    cx.prove_eq(list(ys), [1, 0.52, 0.27], 'plottable(integer first):y = values')
+    cx.prove_eq(list(es), [0.01, 0.02, 0.03], 'plottable(integer first):yerr = dvalues')
     if cx.mode == 'conc':
         cx.prove_eq(float(o), v, 'float(obs)')
 
